@@ -1,4 +1,4 @@
-import PewProofs.SyncRender
+import PewProofs.SyncSingle
 
 /-! # C08 — property theorems (statements only depend on `PewModel.Sync`) -/
 namespace Pew.Sync
@@ -413,6 +413,47 @@ theorem sync_render_squeeze (a : Acq) (sel : Option (List Int)) (isnan : Nat →
       r.pixels = (squeezeImg isnan w (truthImage a sel h w)).1 ∧
       r.width = (squeezeImg isnan w (truthImage a sel h w)).2 ∧ r.height = r.pixels.length :=
   sync_render_squeeze_core a sel isnan rd hyp hr
+
+/-- On the domain of the ground truth `render` is defined (there is a first firing in the selection and
+the signal is not empty), so `sync_render` is never vacuous in its second hypothesis. -/
+theorem render_defined (a : Acq) (sel : Option (List Int)) (hyp : truthHyp a sel = true) :
+    ∃ rd, render a sel = some rd :=
+  render_defined_core a sel hyp
+
+/-- The domain is not a list of examples: every complete recording (`skip = 0`, all samples taken) of a
+single logged pattern — any of the eight scan patterns, any number ≥ 1 and length ≥ 1 of lines, any
+gaps with or without laser-off samples, any stage-move rows, lead-in and tail, any stage origin, any
+positive spot size, samples anywhere strictly inside their slots — satisfies `truthHyp`. -/
+theorem domain_single_pattern (a : Acq) (sel : Option (List Int)) (p : Pattern) (hp : a.patterns = [p])
+    (hsel : isSelected sel p.seq = true)
+    (h0 : 0 < a.phase) (h1 : a.phase < 1) (hseq : 0 ≤ p.seq) (hd : 0 < p.dwell)
+    (hu : 0 < p.sxu) (hv : 0 < p.syu) (hc : p.circular = true → p.sxu = p.syu)
+    (hn : 0 < p.npix) (hl : p.lines ≠ [])
+    (hskip : a.skip = 0) (htake : a.take = (emitAll a).samples.length) :
+    truthHyp a sel = true :=
+  truthHyp_single a sel p hp hsel h0 h1 hseq hd hu hv hc hn hl hskip htake
+
+/-- **C08 for one pattern, hypotheses spelled out** (stages: one line or many, each direction,
+unidirectional or serpentine, gaps with laser-off samples): the complete recording of any single
+logged raster is synchronised to its ground-truth image. -/
+theorem sync_render_single (a : Acq) (isnan : Nat → Bool) (p : Pattern) (hp : a.patterns = [p])
+    (h0 : 0 < a.phase) (h1 : a.phase < 1) (hseq : 0 ≤ p.seq) (hd : 0 < p.dwell)
+    (hu : 0 < p.sxu) (hv : 0 < p.syu) (hc : p.circular = true → p.sxu = p.syu)
+    (hn : 0 < p.npix) (hl : p.lines ≠ [])
+    (hskip : a.skip = 0) (htake : a.take = (emitAll a).samples.length) :
+    ∃ rd r, render a none = some rd ∧ sync rd.rows none rd.times rd.delay isnan false = .ok r ∧
+      r.origin = (p.X, p.Y) ∧ r.spot = [(p.sxu : Rat) / 10000, (p.syu : Rat) / 10000] ∧
+      r.pixels = truthImage a none r.height r.width ∧
+      ∀ e ∈ truthCells a none, 0 ≤ e.1 ∧ e.1 < (r.height : Int) ∧ 0 ≤ e.2.1 ∧ e.2.1 < (r.width : Int) := by
+  have hyp := domain_single_pattern a none p hp rfl h0 h1 hseq hd hu hv hc hn hl hskip htake
+  obtain ⟨rd, hr⟩ := render_defined a none hyp
+  obtain ⟨r, hok, horig, ⟨p0, hhead, hspot⟩, hpix, hb⟩ := sync_render a none isnan rd hyp hr
+  have hps : selectedPatterns a none = [p] := by simp [selectedPatterns, hp, isSelected]
+  rw [hps] at hhead
+  simp only [List.head?_cons, Option.some.injEq] at hhead
+  subst hhead
+  refine ⟨rd, r, hr, hok, ?_, hspot, hpix, hb⟩
+  rw [horig]; simp [truthOrigin, hps, minList]
 
 /-! ### non-vacuity: concrete acquisitions satisfy the hypotheses -/
 
